@@ -220,7 +220,9 @@ func alphaCmd(args []string) error {
 			rs = append(rs, res{"ColorFromNRGBA (alpha only)", [3]float32{0, 0, 0}, an})
 			p, ap := sp.fromRGBA(color.RGBA{uint8(r >> 8), uint8(g >> 8), uint8(b >> 8), 0})
 			rs = append(rs, res{"ColorFromRGBA", [3]float32{p.R, p.G, p.B}, ap})
-			for _, c := range []color.Color{color.NRGBA64{r, g, b, 0}, color.NRGBA{uint8(r >> 8), uint8(g), uint8(b), 0}, color.RGBA64{0, 0, 0, 0}} {
+			for _, c := range []color.Color{color.NRGBA64{r, g, b, 0}, color.NRGBA{uint8(r >> 8), uint8(g), uint8(b), 0}, color.RGBA64{0, 0, 0, 0},
+				// invalidly premultiplied: colour bytes under alpha 0
+				color.RGBA64{r | 1, g, b, 0}, color.RGBA{uint8(r>>8) | 1, uint8(g), uint8(b), 0}, color.RGBA64{0, 0, 1, 0}} {
 				e, ae := sp.fromEnc(c)
 				rs = append(rs, res{fmt.Sprintf("ColorFromEncodedColor(%T)", c), [3]float32{e.R, e.G, e.B}, ae})
 				l, al := sp.fromLin(c)
